@@ -154,7 +154,7 @@ inductive Action
   | newCfg (p : Params)                 -- a handler starts provisioning
   | store (c : CfgId) (k : Key)         -- fillHost: hosts.LoadOrStore(k, new(Host))
   | cancel (c : CfgId)                  -- the configuration's context is cancelled
-  | delete (c : CfgId) (k : Key)        -- Cleanup: hosts.Delete(k)
+  | delete (c : CfgId) (k : Key)        -- Cleanup: one upstream of the loop (hosts.Delete(k) if it was stored)
   | newReq (c : CfgId) (get : Bool)     -- ServeHTTP of handler c is entered
   | dispatch (r : Nat) (h : HostId)     -- Select returned an upstream with Host h; countRequest(1)
   | noUpstream (r : Nat)                -- Select returned nil; tryAgain
@@ -278,18 +278,34 @@ def poolDelete (pool : Key → Option (HostId × Nat)) (k : Key) : Key → Optio
   | some (o, n) => if n ≤ 1 then upd pool k none else upd pool k (some (o, n - 1))
   | none => pool
 
-/-- reverseproxy.go:392-401 — Cleanup deletes every configured upstream, stored or not.
+/-- reverseproxy.go:392-407 — Cleanup walks the configured upstreams and releases those whose
+    `Host` is set, i.e. the ones `provisionUpstream` stored (`k ∈ held`); for an upstream that was
+    never stored (Provision failed earlier; context.go:409-421 still calls Cleanup) the loop body is
+    `continue`: the step is a no-op.
     (The pool lookup is done once, here, so that the executable model stays linear; the result is
     `poolDelete s.pool k`, see `Lemmas.stepDelete_spec`.) -/
 def stepDelete (s : State) (c : CfgId) (k : Key) : Option State :=
   match s.cfgs[c]? with
   | some cs =>
     if cs.canceled then
-      match s.pool k with
-      | some (o, n) =>
-        if n ≤ 1 then some { s with pool := upd s.pool k none, cfgs := s.cfgs.set c { cs with held := cs.held.erase k } }
-        else some { s with pool := upd s.pool k (some (o, n - 1)), cfgs := s.cfgs.set c { cs with held := cs.held.erase k } }
-      | none => some { s with cfgs := s.cfgs.set c { cs with held := cs.held.erase k } }
+      if cs.held.contains k then
+        match s.pool k with
+        | some (o, n) =>
+          if n ≤ 1 then some { s with pool := upd s.pool k none, cfgs := s.cfgs.set c { cs with held := cs.held.erase k } }
+          else some { s with pool := upd s.pool k (some (o, n - 1)), cfgs := s.cfgs.set c { cs with held := cs.held.erase k } }
+        | none => some { s with cfgs := s.cfgs.set c { cs with held := cs.held.erase k } }
+      else some s
+    else none
+  | none => none
+
+/-- the Cleanup of the code before fix d6561d4 ("Cleanup releases only the upstream hosts that
+    Provision acquired"): every configured upstream is deleted from the pool, stored or not.
+    Kept only for the `…_old_code_fails` theorems in `Witness.lean`. -/
+def stepDeleteOld (s : State) (c : CfgId) (k : Key) : Option State :=
+  match s.cfgs[c]? with
+  | some cs =>
+    if cs.canceled then
+      some { s with pool := poolDelete s.pool k, cfgs := s.cfgs.set c { cs with held := cs.held.erase k } }
     else none
   | none => none
 
@@ -328,19 +344,17 @@ inductive Reachable : State → Prop
   | init : Reachable init
   | step {s s' : State} (a : Action) : Reachable s → step s a = some s' → Reachable s'
 
-/-- Cleanup is *matched* when it deletes a key this handler stored.  The code also deletes
-    unmatched (Provision failed before `provisionUpstream`; context.go:409-421 calls Cleanup). -/
-def Action.matched (s : State) : Action → Bool
-  | .delete c k =>
-    match s.cfgs[c]? with
-    | some cs => cs.held.contains k
-    | none => true
-  | _ => true
+/-- the transition system of the code before fix d6561d4 (only the Cleanup delete differs) -/
+def stepOld (s : State) : Action → Option State
+  | .delete c k => stepDeleteOld s c k
+  | a => step s a
 
-/-- reachable without an unmatched Cleanup delete -/
-inductive ReachableM : State → Prop
-  | init : ReachableM init
-  | step {s s' : State} (a : Action) : ReachableM s → a.matched s = true → step s a = some s' → ReachableM s'
+def runOld (s : State) : List Action → Option State
+  | [] => some s
+  | a :: as =>
+    match stepOld s a with
+    | some s' => runOld s' as
+    | none => none
 
 -- ---------------------------------------------------------------- observations
 
